@@ -3,6 +3,7 @@
 package c13
 
 import (
+	"reflect"
 	"math"
 	"fmt"
 	"testing"
@@ -297,6 +298,72 @@ func run(w *core.Worker, c Case) {
 				fail("FindMaxByKey-panic", "FindMaxByKey(%v, a) panicked: %v", c.Maps, q)
 			}
 			nontrivial = len(have) >= 2
+		case "RangeTyped":
+			// Range/RangeRight over element types other than int/float64: the upper half of uint64,
+			// narrow unsigned and signed types; c.S = [start, count, step] relative to a base per type
+			rangeTyped[uint64](fail, uint64(1)<<63-uint64(c.S[0]), uint64(c.S[1]), uint64(c.S[2]))
+			rangeTyped[uint64](fail, ^uint64(0)-40-uint64(c.S[0]), uint64(c.S[1]), uint64(c.S[2]))
+			rangeTyped[uint32](fail, uint32(1)<<31-uint32(c.S[0]), uint32(c.S[1]), uint32(c.S[2]))
+			rangeTyped[uint8](fail, uint8(200+c.S[0]), uint8(c.S[1]), uint8(c.S[2]))
+			rangeTyped[int8](fail, int8(90+c.S[0]), int8(c.S[1]), int8(c.S[2]))
+			rangeTyped[int64](fail, int64(1)<<53+int64(c.S[0]), int64(c.S[1]), int64(c.S[2]))
+			nontrivial = c.S[1] >= 2
+		case "RangeFine":
+			// float progressions with steps finer than the two decimals the library keeps: every
+			// element must lie within 0.005 of start + i*step, and there must be ceil((end-start)/step) of them
+			start, step, n := c.Args[0], c.Args[1], int(c.Args[2])
+			end := start + float64(n)*step - step/2
+			for _, f32 := range []bool{false, true} {
+				var got []float64
+				var err error
+				if f32 {
+					g, e := gogu.Range(float32(start), float32(step), float32(end))
+					err = e
+					for _, x := range g {
+						got = append(got, float64(x))
+					}
+				} else {
+					got, err = gogu.Range(start, step, end)
+				}
+				if err != nil || len(got) != n {
+					fail("RangeFine-length", "Range(%v,%v,%v) float32=%v = %v (err %v): want %d elements", start, step, end, f32, got, err, n)
+					return
+				}
+				for i, x := range got {
+					if d := x - (start + float64(i)*step); d > 0.00501 || d < -0.00501 {
+						fail("RangeFine-drift", "Range(%v,%v,%v) float32=%v = %v: element %d is %v, the progression value is %v", start, step, end, f32, got, i, x, start+float64(i)*step)
+						return
+					}
+				}
+			}
+			nontrivial = n >= 3
+		case "NearFloats":
+			// values that are != but closer than any sensible tolerance: equality is exact
+			base := float64(c.V) / 8
+			if c.V%3 == 0 {
+				base = 0.1 * float64(c.V)
+			}
+			nb := math.Nextafter(base, math.Inf(1))
+			nb2 := math.Nextafter(base, math.Inf(-1))
+			if gogu.Equal(base, nb) || gogu.Equal(nb2, base) || !gogu.Equal(base, base) {
+				fail("Equal-float", "Equal(%v, next float)=%v Equal(prev float, %v)=%v Equal(x,x)=%v", base, gogu.Equal(base, nb), base, gogu.Equal(nb2, base), gogu.Equal(base, base))
+			}
+			fs := []float64{nb2, 7, nb, base + 1e-10, base, nb}
+			if got := gogu.IndexOf(fs, base); got != 4 {
+				fail("IndexOf-float", "IndexOf(%v, %v)=%d want 4", fs, base, got)
+			}
+			if got := gogu.LastIndexOf(fs, nb); got != 5 {
+				fail("LastIndexOf-float", "LastIndexOf(%v, %v)=%d want 5", fs, nb, got)
+			}
+			if gogu.Contains(fs[:4], base) || !gogu.Contains(fs, base) {
+				fail("Contains-float", "Contains(%v, %v)=%v / Contains(%v, %v)=%v", fs[:4], base, gogu.Contains(fs[:4], base), fs, base, gogu.Contains(fs, base))
+			}
+			f32 := float32(base)
+			n32 := math.Nextafter32(f32, float32(math.Inf(1)))
+			if gogu.Equal(f32, n32) || gogu.IndexOf([]float32{n32, f32}, f32) != 1 {
+				fail("Equal-float32", "Equal(%v, next float32)=%v", f32, gogu.Equal(f32, n32))
+			}
+			nontrivial = true
 		case "AggTyped":
 			// Sum/SumBy/Mean "in the element type": narrow and wide integer types, values beyond
 			// 2^53, sums that wrap - the reference accumulates in the same type
@@ -492,6 +559,46 @@ func allSlices(vals []int, maxLen int) [][]int {
 }
 
 
+
+// rangeTyped checks Range/RangeRight over T for the ascending progression start, start+step, ...
+// (count elements), in the 3-, 2- (step 1) and - for start 0 - 1-argument forms.
+func rangeTyped[T gogu.Number](fail func(sig, format string, a ...any), start, count, step T) {
+	if step == 0 || count == 0 {
+		return
+	}
+	var want []T
+	x := start
+	for i := T(0); i < count; i++ {
+		want = append(want, x)
+		x += step
+	}
+	end := want[len(want)-1] + 1 // the progression stops before reaching end
+	if end <= start {
+		return // wrapped around: outside the domain
+	}
+	got, err := gogu.Range(start, step, end)
+	if err != nil || !reflect.DeepEqual(got, want) {
+		fail("Range-typed", "Range[%T](%v,%v,%v) = (%v, %v) want %v", start, start, step, end, got, err, want)
+		return
+	}
+	rev, err := gogu.RangeRight(start, step, end)
+	if err != nil || len(rev) != len(want) {
+		fail("RangeRight-typed", "RangeRight[%T](%v,%v,%v) = (%v, %v) want the reverse of %v", start, start, step, end, rev, err, want)
+		return
+	}
+	for i := range want {
+		if rev[i] != want[len(want)-1-i] {
+			fail("RangeRight-typed", "RangeRight[%T](%v,%v,%v) = %v want the reverse of %v", start, start, step, end, rev, want)
+			return
+		}
+	}
+	if step == 1 {
+		if got, err := gogu.Range(start, end); err != nil || !reflect.DeepEqual(got, want) {
+			fail("Range-typed", "Range[%T](%v,%v) = (%v, %v) want %v", start, start, end, got, err, want)
+		}
+	}
+}
+
 // aggTyped checks Sum, SumBy and Mean of conv(s) against accumulation in the element type T.
 func aggTyped[T gogu.Number](fail func(sig, format string, a ...any), s []int, conv func(int) T) {
 	ts := make([]T, len(s))
@@ -517,7 +624,7 @@ func aggTyped[T gogu.Number](fail func(sig, format string, a ...any), s []int, c
 func TestProp(t *testing.T) {
 	r := core.Start(t, "C13")
 	defer r.Finish()
-	r.Rule("cases = one call group of a search/selection/aggregate/numeric helper checked against its definition: IndexOf/LastIndexOf/Contains, FindIndex/FindLastIndex/FindAll/Some/Every (4 predicates), FindMin/FindMax/Min/Max/Sum/SumBy/Mean (int and float64), FindMinBy/FindMaxBy (first extremal element, 4 key functions with ties), FindMinByKey/FindMaxByKey over map slices with/without the key, Nth over an index window and at the extreme int values, Sum/SumBy/Mean also on int8/uint8/int16/int32/int64 (beyond 2^53)/uint64 (near the maximum)/float32 against accumulation in the element type, Abs/Clamp/InRange on all of int8, Compare (plain and by-key comparators with ties between unequal values, struct elements)/Less/Equal, Range/RangeRight against the reference progression; non-trivial = input of >= 2 elements resp. a proper match/progression; distinct by hash of the case")
+	r.Rule("cases = one call group of a search/selection/aggregate/numeric helper checked against its definition: IndexOf/LastIndexOf/Contains, FindIndex/FindLastIndex/FindAll/Some/Every (4 predicates), FindMin/FindMax/Min/Max/Sum/SumBy/Mean (int and float64), FindMinBy/FindMaxBy (first extremal element, 4 key functions with ties), FindMinByKey/FindMaxByKey over map slices with/without the key, Nth over an index window and at the extreme int values, Sum/SumBy/Mean also on int8/uint8/int16/int32/int64 (beyond 2^53)/uint64 (near the maximum)/float32 against accumulation in the element type, Abs/Clamp/InRange on all of int8, Compare (plain and by-key comparators with ties between unequal values, struct elements)/Less/Equal, Range/RangeRight against the reference progression, also over uint64 (upper half, near the maximum)/uint32/uint8/int8/int64 and for float steps finer than two decimals (every element within 0.005 of start+i*step), Equal/IndexOf/LastIndexOf/Contains on floats that differ by one ulp; non-trivial = input of >= 2 elements resp. a proper match/progression; distinct by hash of the case")
 
 	L := r.Pick(5, 6)
 	core.Monitor(r, "def-sweep", 0, func(emit func(Case)) {
@@ -547,6 +654,25 @@ func TestProp(t *testing.T) {
 				}
 				emit(Case{Fn: "AggTyped", S: s})
 			}
+		}
+		for off := 0; off <= 6; off++ {
+			for count := 1; count <= 9; count++ {
+				for step := 1; step <= 3; step++ {
+					emit(Case{Fn: "RangeTyped", S: []int{off, count, step}})
+				}
+			}
+		}
+		for _, st := range []float64{0, 0.5, -1.25, 3} {
+			for _, step := range []float64{0.125, 0.375, 0.0625, 0.03125, 0.625} {
+				for n := 1; n <= 24; n++ {
+					if st+float64(n)*step-step/2 > 0 { // ascending only for end > 0 (the property's rule)
+						emit(Case{Fn: "RangeFine", Args: []float64{st, step, float64(n)}})
+					}
+				}
+			}
+		}
+		for v := -12; v <= 40; v++ {
+			emit(Case{Fn: "NearFloats", V: v})
 		}
 		r.Exhaustive(fmt.Sprintf("IndexOf/LastIndexOf/Contains(probes -1..3), FindIndex/FindLastIndex/FindAll/Some/Every(8 predicates), FindMin/FindMax/Min/Max/Sum/SumBy/Mean, FindMinBy/FindMaxBy(4 key fns), Nth(indices -(len+2)..len+2) on all slices of length<=%d over {0,1,2}", L), int64(len(ss)))
 		// negative / wider values for the extremum functions
